@@ -36,6 +36,8 @@ type ctxExtra struct {
 	writes      map[string]bool
 	lockedOnce  map[string]bool
 	freshList   []string
+	ptrField    map[string]int
+	freshErrs   []string
 	loopIndex   map[ast.Node]int
 	curLoop     ast.Node
 }
@@ -52,6 +54,7 @@ func newCtx(e *Engine, fi *FuncInfo) *Ctx {
 	c.loopHavocFields = map[string]bool{}
 	c.writes = map[string]bool{}
 	c.lockedOnce = map[string]bool{}
+	c.ptrField = map[string]int{}
 	if fi.Contract != nil {
 		c.props = fi.Contract.Props
 		c.bv = fi.Contract.ModeBV
@@ -199,31 +202,24 @@ func (e *Engine) verifyFunc(fi *FuncInfo) *FuncResult {
 		fr.returns = append(fr.returns, retState{st: o, vals: fr.namedResults(o)})
 	}
 	// postconditions on every return path
-	for ri, r := range fr.returns {
+	retIdx := 0
+	for _, r := range fr.returns {
 		rstate := r.st
 		c.runDefers(fr, rstate)
 		if len(alive(rstate)) == 0 {
 			continue
 		}
-		vals := r.vals
-		// named results may have been changed by defers: not modelled
-		c.addCover(rstate, fmt.Sprintf("return#%d", ri), fi.Decl.End())
-		if con != nil {
-			post := c.contractEnv(fi, entrySnap, bind, vals, nil)
-			for k, en := range con.Ensures {
-				g := post.evalBool(en.Expr, rstate)
-				c.addObl(rstate, fmt.Sprintf("post#%d@ret%d", k, ri), "post", g, c.e.pos(fi.Decl.Pos()), "ensures "+en.Text, en.Props)
+		// generator: the function returns an iterator literal; its body is verified here and
+		// the postconditions speak about the sequence it yields
+		if gen := generatorOf(r.vals, sig); gen != nil {
+			for _, g := range c.runGenerator(env, gen, rstate, sig) {
+				c.checkReturn(fi, con, g.st, entrySnap, bind, g.vals, retIdx)
+				retIdx++
 			}
-			if con.HasMod {
-				c.frameObligations(rstate, entrySnap, ri)
-			}
+			continue
 		}
-		// locks must not be held at return unless the contract says so
-		for _, k := range sortedKeys(rstate.held) {
-			if !entrySnap.held[k] {
-				c.addObl(rstate, fmt.Sprintf("lock/%s/released@ret%d", lockName(k), ri), "lock", "false", c.e.pos(fi.Decl.Pos()), "lock released on every return path", nil)
-			}
-		}
+		c.checkReturn(fi, con, rstate, entrySnap, bind, r.vals, retIdx)
+		retIdx++
 	}
 	res.Obls = c.obls
 	res.Outside = c.outside
@@ -471,4 +467,111 @@ func (e *Engine) verifyLemma(l *Lemma) *FuncResult {
 		res.Obls = nil
 	}
 	return res
+}
+
+func (c *Ctx) checkReturn(fi *FuncInfo, con *Contract, rstate, entrySnap *State, bind map[string]Val, vals []Val, ri int) {
+	c.addCover(rstate, fmt.Sprintf("return#%d", ri), fi.Decl.End())
+	if con != nil {
+		post := c.contractEnv(fi, entrySnap, bind, vals, nil)
+		for k, en := range con.Ensures {
+			g := post.evalBool(en.Expr, rstate)
+			c.addObl(rstate, fmt.Sprintf("post#%d@ret%d", k, ri), "post", g, c.e.pos(fi.Decl.Pos()), "ensures "+en.Text, en.Props)
+		}
+		if con.HasMod {
+			c.frameObligations(rstate, entrySnap, ri)
+		}
+	}
+	// locks must not be held at return unless the contract says so
+	for _, k := range sortedKeys(rstate.held) {
+		if !entrySnap.held[k] {
+			c.addObl(rstate, fmt.Sprintf("lock/%s/released@ret%d", lockName(k), ri), "lock", "false", c.e.pos(fi.Decl.Pos()), "lock released on every return path", nil)
+		}
+	}
+}
+
+// generatorOf: the returned value is a func literal of iterator shape func(yield func(...) bool).
+func generatorOf(vals []Val, sig *types.Signature) *Closure {
+	if len(vals) != 1 || vals[0].Fn == nil || vals[0].Fn.Lit == nil || sig.Results().Len() != 1 {
+		return nil
+	}
+	rs, ok := types.Unalias(sig.Results().At(0).Type()).Underlying().(*types.Signature)
+	if !ok || rs.Params().Len() != 1 || rs.Results().Len() != 0 {
+		return nil
+	}
+	ys, ok := rs.Params().At(0).Type().Underlying().(*types.Signature)
+	if !ok || ys.Results().Len() != 1 {
+		return nil
+	}
+	return vals[0].Fn
+}
+
+// runGenerator executes the iterator body with a ghost output sequence. Returned states are the
+// complete runs (the consumer never stopped); result is the sequence value of everything yielded.
+func (c *Ctx) runGenerator(outer *Env, gen *Closure, st *State, sig *types.Signature) []retState {
+	cenv := gen.Env
+	sub := *cenv
+	sub.bound = map[string]Val{}
+	for k, v := range cenv.bound {
+		sub.bound[k] = v
+	}
+	rs := types.Unalias(sig.Results().At(0).Type()).Underlying().(*types.Signature)
+	ys := rs.Params().At(0).Type().Underlying().(*types.Signature)
+	seqT := sig.Results().At(0).Type()
+	g := st.clone()
+	for i := 0; i < ys.Params().Len() && i < 2; i++ {
+		key := "out_"
+		if i == 1 {
+			key = "out2_"
+		}
+		st := types.NewSlice(sub.subst(ys.Params().At(i).Type()))
+		g.ghost[key] = sub.zero(st)
+	}
+	g.ghost["stopped_"] = Val{T: "false", Ty: tBool}
+	// bind the yield parameter
+	for _, f := range gen.Lit.Type.Params.List {
+		for _, n := range f.Names {
+			if o := cenv.pkg.info.Defs[n]; o != nil {
+				g.vars[o] = Val{T: c.fresh("yield", sub.sortOf(o.Type())), Ty: o.Type(), Fn: &Closure{Yield: true}}
+			}
+		}
+	}
+	c.trust("iterator bodies are verified for complete runs from the state at creation; early-stop only checked for 'no yield after stop'")
+	fr := &frame{env: &sub, sig: rs}
+	c.frames = append(c.frames, fr)
+	outs := c.execBlock(&sub, gen.Lit.Body.List, []*State{g})
+	for _, o := range outs {
+		fr.returns = append(fr.returns, retState{st: o})
+	}
+	c.runDefersAll(fr)
+	c.frames = c.frames[:len(c.frames)-1]
+	var res []retState
+	for _, r := range fr.returns {
+		e := r.st
+		e.assume(not(e.ghost["stopped_"].T))
+		if len(alive(e)) == 0 {
+			continue
+		}
+		// the sequence value
+		ss := sub.sortOf(seqT)
+		sv := c.fresh("yielded", ss)
+		out := e.ghost["out_"]
+		os := sub.sortOf(out.Ty)
+		e.assume(eq(app(c.seqLenFn(ss), sv), app("len_"+os, out.T)))
+		i := c.freshBound("i")
+		at0 := seqAtFn(c, &sub, ss, elemOf(out.Ty), 0)
+		e.assume(fmt.Sprintf("(forall ((%s Int)) (! (= (%s %s %s) (select (arr_%s %s) %s)) :pattern ((%s %s %s)) :pattern ((select (arr_%s %s) %s))))", i, at0, sv, i, os, out.T, i, at0, sv, i, os, out.T, i))
+		if out2, ok := e.ghost["out2_"]; ok && out2.Ty != nil {
+			o2 := sub.sortOf(out2.Ty)
+			at1 := seqAtFn(c, &sub, ss, elemOf(out2.Ty), 1)
+			e.assume(fmt.Sprintf("(forall ((%s Int)) (! (= (%s %s %s) (select (arr_%s %s) %s)) :pattern ((%s %s %s)) :pattern ((select (arr_%s %s) %s))))", i, at1, sv, i, o2, out2.T, i, at1, sv, i, o2, out2.T, i))
+		}
+		res = append(res, retState{st: e, vals: []Val{{T: sv, Ty: seqT}}})
+	}
+	return res
+}
+
+func (c *Ctx) runDefersAll(fr *frame) {
+	for _, r := range fr.returns {
+		c.runDefers(fr, r.st)
+	}
 }
